@@ -3,9 +3,13 @@ from .parser import parse, TokenType, Operator, Token, MathExpressionException
 from .extract import extract
 
 def int_divide(a, b):
-    "Integer division: quotient rounded down. Overflown quotient (`inf`, `nan`) is returned as is"
+    """
+    Integer division: quotient rounded down. Overflown quotient (`inf`, `nan`) is returned as is.
+    Result is a float, like every other number of expression: exact integer of any
+    size can’t be used in further float arithmetic (`OverflowError`)
+    """
     result = a / b
-    return floor(result) if isfinite(result) else result
+    return float(floor(result)) if isfinite(result) else result
 
 
 ops1 = {
